@@ -44,10 +44,18 @@ def install(eng):
                                           "gwf.plugins.touch:touch_workflow._visit"] + FILTERS, enum_cli.run_c16)
     eng.enumerator("cli-cancel", ["C17"], ["gwf.plugins.cancel:cancel", "gwf.plugins.cancel:cancel_many",
                                            "gwf.backends.base:TrackingBackend.cancel"] + FILTERS, enum_cli.run_c17)
+    # C03, last clause: `gwf info` prints the graph's relations (the info plugin has no deductive contract)
+    eng.enumerator("cli-info", ["C03"], GRAPH, enum_cli.run_c03_info, always=True)
+    # C04, last clause: no stack-depth / termination obligations are generated; decided (bounded) here. The
+    # RecursionError on deep chains is known finding F04
+    eng.enumerator("workflow-sizes", ["C04"], GRAPH + SCHED, enum_cli.run_c04_sizes, always=True)
     from replay import enum_local
     LOCAL = [k for k in eng.contracts if k.startswith("gwf.backends.local:")]
     eng.enumerator("local-pool-scenarios", ["C11", "C12", "C13"], LOCAL, lambda seed, focus: enum_local.replay(None, None, None, seed))
     eng.enumerator("local-server-clients", ["C14"], LOCAL, lambda seed, focus: enum_local.replay_server(None, None, None, seed))
+    # C08 for the local backend across a restart of the pool (F15): real pool twice, real clients
+    eng.enumerator("local-pool-restart", ["C08"], LOCAL + BACKEND, lambda seed, focus: enum_local.replay_restart(None, None, None, seed),
+                   always=True)
     from replay import enum_ops
     OPS = [k for k in eng.contracts if k.startswith(("gwf.backends.slurm:", "gwf.backends.sge:", "gwf.backends.lsf:",
                                                      "gwf.backends.utils:"))]
